@@ -29,6 +29,7 @@ type Clause struct {
 type SiteAssert struct {
 	Text   string
 	Cl     *Clause
+	Ghost  bool // ghost_at: the clause `ghost(g) == expr` is a ghost assignment executed at the site
 	Hint   bool // use_at / unfold_at: the clause is a hint (lemma instance or unfolding) applied at the site
 	Assume bool // callee name written with a trailing "!": the checked fact is also assumed afterwards (a stepping stone for later obligations)
 }
@@ -143,7 +144,7 @@ func newContractDB() *ContractDB {
 	return &ContractDB{Funcs: map[string]*Contract{}, Specs: map[string]*SpecFunc{}, Lemmas: map[string]*Lemma{}, Consts: map[string]string{}, Ghosts: map[string]string{}}
 }
 
-var keywordRe = regexp.MustCompile(`^(package|axiom|func|requires|ensures|modifies|mode|loop|invariant|decreases|hint|unfold|use|induct|may_panic|trusted|abstracts|inline|intonly|partial|posts_only|assert_at|use_at|unfold_at|assert_call|assume_call|preserves|sets|volatile_inv|check_pre|ensures_assumed|wraps_signed|volatile|witness|cases|property|spec|lemma|struct|global|ghost|noframe|const)\b`)
+var keywordRe = regexp.MustCompile(`^(package|axiom|func|requires|ensures|modifies|mode|loop|invariant|decreases|hint|unfold|use|induct|may_panic|trusted|abstracts|inline|intonly|partial|posts_only|assert_at|use_at|unfold_at|ghost_at|assert_call|assume_call|preserves|sets|volatile_inv|check_pre|ensures_assumed|wraps_signed|volatile|witness|cases|property|spec|lemma|struct|global|ghost|noframe|const)\b`)
 
 // stripComment removes a trailing `// ...` that is outside string literals
 func stripComment(s string) string {
@@ -672,6 +673,23 @@ func (db *ContractDB) LoadFile(path, pkgPath string, trusted bool) error {
 				cur.IntOnly = true
 			case "wraps_signed":
 				cur.WrapsSigned = true
+			case "ghost_at":
+				// ghost_at "text": ghost(g) = expr   - ghost assignment before the statement(s) on matching lines
+				r := strings.TrimSpace(rest)
+				if !strings.HasPrefix(r, "\"") {
+					return fmt.Errorf("%s: ghost_at needs a quoted source text", st.src)
+				}
+				j := strings.Index(r[1:], "\"")
+				if j < 0 {
+					return fmt.Errorf("%s: ghost_at: unterminated text", st.src)
+				}
+				text := r[1 : 1+j]
+				r = strings.TrimPrefix(strings.TrimSpace(r[2+j:]), ":")
+				cl, err := parseClause(strings.Replace(strings.TrimSpace(r), "=", "==", 1), st.src)
+				if err != nil {
+					return err
+				}
+				cur.SiteAsserts = append(cur.SiteAsserts, &SiteAssert{Text: text, Cl: cl, Ghost: true})
 			case "use_at", "unfold_at":
 				r := strings.TrimSpace(rest)
 				if !strings.HasPrefix(r, "\"") {
